@@ -4,8 +4,11 @@ from ..common import Result
 from ..solvers import execute, tie
 
 
-def make(ID, algos, gens, judge_fn, quick, thorough, corpus_cases=(), known_algos=()):
-    """Returns (corpus, run, shrink, replay) functions for a check module."""
+def make(ID, algos, gens, judge_fn, quick, thorough, corpus_cases=(), known_algos=(), exhaustive=None):
+    """Returns (corpus, run, shrink, replay) functions for a check module.
+
+    exhaustive: optional callable () -> iterable of cases, enumerated IN ADDITION in the thorough tier (and in
+    the deep search): the bounded-exhaustive scope quoted in the property's quantifier."""
 
     def judge(ctx, res, runs):
         for r in runs:
@@ -39,6 +42,12 @@ def make(ID, algos, gens, judge_fn, quick, thorough, corpus_cases=(), known_algo
             for _ in range(max(1, int(n * share))):
                 c = g(ctx, ctx.rng)
                 items += [(c, a) for a in algos_for(c)]
+        if exhaustive is not None and (ctx.thorough or ctx.deep):
+            k = 0
+            for c in exhaustive():
+                items += [(c, a) for a in algos_for(c)]
+                k += 1
+            res.dist["bounded-exhaustive cases"] += k
         for i in range(0, len(items), 2000):
             judge(ctx, res, execute(ctx, items[i : i + 2000]))
 
